@@ -70,7 +70,14 @@ pub(crate) fn restore_disclosures(
         let mut remaining = Vec::new();
         let mut progress = false;
         for disclosure in pending {
+            let restored_before = disclosure_paths.len();
             if restore_disclosure(claims, &disclosure, String::new(), disclosure_paths, 0)? {
+                // a digest embedded in more than one place is restored at each of them; rejecting it
+                // right away keeps repeated digests inside disclosures from doubling the claims
+                // with every pass
+                if disclosure_paths.len() > restored_before + 1 {
+                    return Err(duplicate_digest());
+                }
                 progress = true;
             } else {
                 remaining.push(disclosure);
